@@ -177,4 +177,24 @@ def run(ck):
                                          "%s calls consumeInput(%s) without establishing that the amount is positive: consumeInput() asserts byteCount > 0 (an adversarial "
                                          "peer can make the buffer empty here)" % (f.name, E.key(a0)[:60]), fl.witness(st))
     ck.need(ncons >= 3, "C09: expected >= 3 consumeInput() call sites, found %d" % ncons)
+    ck.rule("M4 stop-is-final (HttpStateData, src/http.cc): once a member function has called mustStop() -- always after fwd->fail()/closeServer() on an adversarial or "
+            "failed reply -- it does nothing but return: no further call is reachable in that function after the stop (all 9 sites of the file follow `mustStop(...); return`). "
+            "Continuing into transaction-progress code (proceedAfter1xx(), processReply(), ...) runs it on a closed server connection and ends in an assertion")
+    h9 = ck.facts(["src/http.cc"], whole=False)
+    nstop = 0
+    is_stop = lambda ev: ev.get("e") == "call" and E.strip(ev["x"]).get("k") == "call" and E.strip(ev["x"]).get("f", "").split("::")[-1] == "mustStop"
+    harmless = lambda x: x.get("k") in ("ctor", "new") or x.get("f", "").split("::")[-1].startswith(("~", "operator")) or x.get("f", "").startswith(("RefCount::", "std::", "SBuf::", "Debug::"))
+    for f in sorted({(f.file, f.line): f for f in h9.all_fns(lambda f: f.name.startswith("HttpStateData::") and f.file.endswith("src/http.cc") and f.tmpl != 2)}.values(), key=lambda f: f.line):
+        if not any(is_stop(ev) for b in f.blocks.values() for ev in b["ev"]):
+            continue
+        fl = ck.flow(f, markers={"stopped": is_stop}, track_markers=["stopped"])
+        nstop += 1
+        bad = [st for st in fl.sites if st.env.get("#stopped") == 1 and st.ev.get("e") == "call" and not is_stop(st.ev) and not harmless(E.strip(st.ev["x"]))]
+        if not bad:
+            ck.ok("M4.stop-is-final", f.where(), "%s: nothing but return follows mustStop()" % f.name)
+        for st in bad[:2]:
+            ck.violation("M4.stop-is-final", "M4|%s|%s|after-mustStop" % (f.name, E.strip(st.ev["x"]).get("f", "?")), st.where(), "%s: %s is reachable after mustStop() in the same "
+                         "function: the job has failed/closed its server connection and is stopping, yet the transaction is driven further" % (f.name, st.desc()[:80]), fl.witness(st))
+    ck.need(nstop >= 7, "C09: expected >= 7 HttpStateData member functions calling mustStop() in src/http.cc, found %d" % nstop)
+
     ck.assume("use-after-free, assertion reachability beyond the two precondition clauses M2/M3, SBuf/Tokenizer internals (bounds enforced dynamically there) and liveness are not decided")
